@@ -13,7 +13,7 @@ for d in */; do
   prop=$(python3 -c "import json;print(json.load(open('$id/meta.json')).get('property'))")
   res=""
   for p in $props; do
-    line=$(/verif/tools/mut.sh seed-$id $id/patch.diff -- $p 2>&1 | grep "^mutant=")
+    line=$(/verif/tools/mut.sh seed-$id /verif/seeded/$id/patch.diff -- $p 2>&1 | grep "^mutant=")
     rc=$(echo "$line" | sed -n 's/.*exit=\([0-9]*\).*/\1/p')
     caught=no; [ "$rc" = 1 ] && caught=yes
     echo "| $id | $prop | $p | $rc | $caught |" >> $tmp
